@@ -78,6 +78,17 @@ def check_event(s, ev, out):
                          f'{where}: {w.rev!r}')
         if w.tasks > 1:
             out.fail('eligible/second-task-to-one-connection', where)
+    # ---- a task message is made for a unit the scheduler released: never a
+    # second one for a unit that is still out
+    seen = {}
+    for u in s.units:
+        if u.answered:
+            continue
+        if u.key in seen and u.key not in s.lost_keys:
+            out.fail('message/second-task-for-a-unit-still-executing',
+                     f'{where}: {u} while {seen[u.key]} is unanswered')
+            break
+        seen[u.key] = u
     # ---- the gate
     if op == 'tick' and not active_start:
         if ev['released'] or any(c[0] in ('do', 'put') for c in ev['calls']):
